@@ -767,6 +767,13 @@ def _restrict_struct(text, keep, generics, open_, where):
             raise Unsupported("%s: cannot parse field %r" % (where, f[:40]))
         decls[mf.group(1)] = re.sub(r"\s+", " ", mf.group(2).strip())
         order.append(mf.group(1))
+    if keep and all(k.startswith("!") for k in keep):
+        # `fields=!a,!b`: every field of the source's struct EXCEPT the named ones (which the template supplies as stand-ins)
+        excl = [k[1:] for k in keep]
+        for kf in excl:
+            if kf not in decls:
+                raise LostAnchor("%s: field %s not found" % (where, kf))
+        keep = [f for f in order if f not in excl]
     for kf in keep:
         if kf not in decls:
             raise LostAnchor("%s: field %s not found" % (where, kf))
